@@ -1,4 +1,4 @@
 import HermesProps.AuditCmd
+import HermesProps.C01
 import HermesProps.C12
 import HermesProps.C17
-import HermesProps.C01
